@@ -78,6 +78,16 @@ Definition or3 (a b : option bool) : option term :=
 Definition not3 (a : option bool) : option term :=
   match a with Some b => Some (t_bool (negb b)) | None => None end.
 
+(* IN: the || of the = comparisons (17.4.1.9) *)
+Definition or3b (a b : option bool) : option bool :=
+  match a, b with
+  | Some true, _ | _, Some true => Some true
+  | Some false, Some false => Some false
+  | _, _ => None
+  end.
+Definition in3 (t : term) (cs : list term) : option bool :=
+  fold_right (fun c acc => or3b (ebv_of (cmp_spec OpEq t c)) acc) (Some false) cs.
+
 Definition cmp_lift (f : term -> term -> option term) (a b : option term) : option term :=
   match a, b with Some x, Some y => f x y | _, _ => None end.
 
@@ -133,6 +143,18 @@ with expr_bu (ds : dataset) (g : graph) (m : sol) (e : expr) {struct e} : option
         | _ => existsb (fun m' => compatible m' m) (eval_bu ds g p)
         end in
       Some (t_bool (Bool.eqb pos found))
+  | EIn pos a cs =>
+      match expr_bu ds g m a with
+      | None => None
+      | Some t => match in3 t cs with None => None | Some b => Some (t_bool (Bool.eqb pos b)) end
+      end
+  | ECoalesce a b => match expr_bu ds g m a with Some t => Some t | None => expr_bu ds g m b end
+  | EIf c a b =>
+      match ebv_of (expr_bu ds g m c) with
+      | None => None
+      | Some true => expr_bu ds g m a
+      | Some false => expr_bu ds g m b
+      end
   end.
 
 Definition spec_rows (c : case) : list sol := eval_bu (c_ds c) (ds_default (c_ds c)) (c_alg c).
